@@ -75,7 +75,7 @@ add("C12", "explicit-state exploration of operation histories on the live Parser
     "trusted: hook H4 (derived Clone) for branching - every violation is re-confirmed by a from-scratch replay without clones; abstract states with one key in two kinds are explored like all others",
     "DESIGN.md section 4, C12")
 add("C13", "explicit-state exploration of (observed file, project) states under single-file perturbations of the live parser, differential oracle",
-    "7 observed files x every set of <= 2 (thorough 4) of 29 other files x every single-file perturbation (add / drop / swap / replace in place; quick tier, two-file bases: swap and replace-in-place alternate over the other files) applied to the already validated live parser; all observations with equal (observed text, per-import registered?/kind) must be equal; kind changes must be observable (negative control).",
+    "7 observed files x every set of <= 2 (thorough 3) of 29 other files x every single-file perturbation (add / drop / swap / replace in place; quick tier, two-file bases: swap and replace-in-place alternate over the other files) applied to the already validated live parser; all observations with equal (observed text, per-import registered?/kind) must be equal; kind changes must be observable (negative control).",
     "trusted: hook H4 (Clone); violations re-confirmed by replaying both plain histories; for a key registered with two kinds the fact is the set of kinds",
     "DESIGN.md section 4, C13")
 add("C14", "bounded-exhaustive token-string exploration of malformed members in member frames against sibling-preservation and locality oracles",
